@@ -109,4 +109,25 @@ theorem unclamped_backoff_overshoots : pollLoop 30000 0 [1000, 2000, 4000, 8000,
 
 example : pollLoop 5000 0 [900, 900, 900, 900, 900, 900, 900] = some 5400 := by decide
 
+/-! ### a dead holder's lock does not wedge the table (C03 / C19: takeover is part of the protocol) -/
+
+/-- one pass of `_try_acquire`: conditional create, then the two-request takeover attempt -/
+def tryAcquire (a : Nat) : List (Nat × SAct) := [(a, .create), (a, .head), (a, .takeover)]
+
+/-- **dead_holder_taken_over** — in ANY state in which the lock object is older than the lease (its holder died: nobody renewed,
+nobody released) a contender's single acquisition pass, undisturbed, ends with the contender owning the lock -/
+theorem dead_holder_taken_over (s : SSys) (a : Nat) (o : Obj) (ho : s.obj = some o) (hl : (s.cl a).isLocked = false)
+    (hage : s.now - o.mtime > s.lease) :
+    ∃ s', srun s (tryAcquire a) = some s' ∧ (s'.cl a).isLocked = true ∧ (∃ o', s'.obj = some o' ∧ o'.owner = a ∧ o'.mtime = s.now) := by
+  simp only [tryAcquire, srun, sstep, hl, ho, Bool.false_eq_true, if_false, hage, if_true, setCl]
+  simp
+
+/-- **live_holder_not_taken_over** — while the object is within its lease the same pass leaves the object alone and the contender unlocked -/
+theorem live_holder_not_taken_over (s : SSys) (a : Nat) (o : Obj) (ho : s.obj = some o) (hl : (s.cl a).isLocked = false)
+    (hage : ¬ s.now - o.mtime > s.lease) :
+    ∃ s', srun s [(a, .create), (a, .head)] = some s' ∧ (s'.cl a).isLocked = false ∧ s'.obj = some o ∧ (s'.cl a).seen = none ∧
+      sstep s' a .takeover = none := by
+  simp only [srun, sstep, hl, ho, Bool.false_eq_true, if_false, hage, setCl]
+  simp
+
 end DSV.Lock
